@@ -25,6 +25,8 @@ try:
         shutil.copy(os.path.join(d, "demo.rs"), dst)
         name = os.path.basename(dst)[:-3]
         feat = "--features wat " if "--features wat" in m.get("demo_cmd", "") else ""
+        if pkgs[0] == "wac-cli":
+            feat = "--no-default-features --features wit,wat "
         rc, out = run("cargo test -p %s %s--offline -j 8 --test %s" % (pkgs[0], feat, name))
         res[d] = {"demo_without_patch_rc": rc}
         os.remove(dst)
@@ -34,6 +36,8 @@ try:
         r["patch_applies"] = rc == 0
         tests = " ".join("-p " + p for p in pkgs)
         feat = "--features wat " if ("--features wat" in m.get("demo_cmd", "") or "wac-resolver" in pkgs) else ""
+        if pkgs[0] == "wac-cli":
+            feat = "--no-default-features --features wit,wat "
         rc, out = run("cargo test %s %s--no-fail-fast --offline -j 8" % (tests, feat))
         r["existing_tests_with_patch_rc"] = rc
         if rc != 0:
